@@ -1,4 +1,9 @@
 """C06 — the config string round-trips, is canonical and always parses."""
+import ast
+import decimal
+import enum
+import fractions
+import math
 import pprint
 import sys
 import types
@@ -14,16 +19,20 @@ LEVEL = 'proof'
 RULE = ('serial: stores built by parsing AND by programmatic binding (nested values, strings up to 200 chars with '
         'blanks / quotes / newlines / non-ASCII, references, macros, scoped and module-qualified names incl. selectors '
         'differing only in letter case, opaque objects, objects whose repr parses to something unequal, macros bound '
-        'to non-literals), recorded imports in all forms with colliding bound names, max_line_length in '
+        'to non-literals, values WITHOUT a literal form that compare equal to / hash like a bound literal of another type '
+        '(IntEnum / StrEnum members, Decimal, Fraction, complex, str / int / float subclasses with their own repr, tuples of '
+        'those) bound before and after the literal, with config_str() calls in between), recorded imports in all forms with colliding bound names, max_line_length in '
         '{indent+1 .. 120}, continuation_indent in {0,2,4,8}. Independent predicates: the text parses in a fresh gin; '
         're-parsing restores every representable binding (equal value, same type) and re-serialising gives the '
-        'identical text; a permutation of the binding order gives the identical text; parameters are sorted; the '
+        'identical text; every bound value of a builtin literal type (type-exact, at every depth) is restored with the same '
+        'type, every value whose repr is not a literal is absent from the re-parsed store, nothing else is restored; '
+        'a permutation of the binding order gives the identical text; parameters are sorted; the '
         'Markdown rendering keeps every binding line verbatim. non-trivial = a value that wraps onto continuation lines, '
         'or a scoped module-qualified key together with >= 1 omitted value.')
 TRUSTED_BASE = [
     'Coq 8.16.1 kernel; vm_compute in the correspondence run; no native_compute',
     'hand-written model coq/Model/Serial.v of gin/config.py:1980-2063,2102-2223,2886-2922 and config_parser.py:86-117 (line structure: imports, macro section, sections, sorting, wrapping decision, markdown); tied to /repo by harness/props/c06.py',
-    'NOT modelled: pprint.pformat and repr (value -> text) and the representability test: the harness measures them per value with the real functions and hands them to the model as an oracle',
+    'NOT modelled: pprint.pformat and repr (value -> text) and the representability test: the harness measures them per value with the real functions and hands them to the model as an oracle; where the type structure of the value decides representability (builtin literal types at every depth, references; repr that is no Python literal) the oracle is that independent verdict (lit_class), not the answer of gin._is_literally_representable',
 ]
 ASSUMPTIONS = ['static registration only (dynamic registration: C19 engine)', 'ASCII selectors']
 
@@ -52,7 +61,136 @@ class BadRepr:
     return '5'
 
 
+class EqualBadRepr:
+  """equal to (and hashing like) an int, repr parses -- to another int"""
+
+  def __init__(self, n):
+    self.n = n
+
+  def __eq__(self, other):
+    return type(other) in (int, EqualBadRepr) and int(getattr(other, 'n', other)) == self.n
+
+  def __ne__(self, other):
+    return not self == other
+
+  def __hash__(self):
+    return hash(self.n)
+
+  def __repr__(self):
+    return repr(self.n + 1)
+
+
+class TaggedStr(str):
+  def __repr__(self):
+    return '<TaggedStr %s>' % str.__repr__(self)
+
+
+class Level(int):
+  def __repr__(self):
+    return 'Level(%s)' % int.__repr__(self)
+
+
+class Ratio(float):
+  def __repr__(self):
+    return 'Ratio(%s)' % float.__repr__(self)
+
+
+_ENUMS = {}
+
+
+def twin(kind, base):
+  """a value WITHOUT a literal form that compares equal to, and hashes like, the literal `base`"""
+  if kind == 'intenum':
+    n = int(base)
+    if ('i', n) not in _ENUMS:
+      _ENUMS[('i', n)] = enum.IntEnum('Mode', {'FAST': n})
+    return _ENUMS[('i', n)].FAST
+  if kind == 'strenum':
+    if ('s', base) not in _ENUMS:
+      _ENUMS[('s', base)] = enum.StrEnum('Color', {'RED': base})
+    return _ENUMS[('s', base)].RED
+  if kind == 'decimal':
+    return decimal.Decimal(base)            # exact for bool / int / float
+  if kind == 'fraction':
+    return fractions.Fraction(base)
+  if kind == 'complex':
+    return complex(base)
+  if kind == 'strsub':
+    return TaggedStr(base)
+  if kind == 'intsub':
+    return Level(base)
+  if kind == 'floatsub':
+    return Ratio(base)
+  if kind == 'eqbad':
+    return EqualBadRepr(int(base))
+  raise ValueError(kind)
+
+
+def twin_kinds(base):
+  t = base[0]
+  if t == 'i':
+    return ['intenum', 'decimal', 'fraction', 'intsub', 'eqbad'] + (['complex'] if base[1] else [])
+  if t == 'b':
+    return ['intenum', 'decimal', 'fraction'] + (['complex'] if base[1] else [])
+  if t == 'float':
+    return ['decimal', 'fraction', 'floatsub'] + (['complex'] if float(base[1]) else [])
+  return ['strenum', 'strsub']
+
+
+def equal_literals(base):
+  """literal values (possibly of other builtin types) equal to the literal `base`"""
+  t = base[0]
+  if t == 'i':
+    return [base, ['float', repr(float(base[1]))]] + ([['b', bool(base[1])]] if base[1] in (0, 1) else [])
+  if t == 'b':
+    return [base, ['i', int(base[1])]]
+  if t == 'float':
+    return [base] + ([['i', int(float(base[1]))]] if float(base[1]).is_integer() else [])
+  return [base]
+
+
+TWIN_BASES = [['i', 0], ['i', 1], ['i', 1], ['i', 2], ['i', -3], ['i', 7], ['b', True], ['b', False], ['float', '1.5'], ['float', '2.0'],
+              ['float', '-0.25'], ['s', 'x'], ['s', 'y'], ['s', '']]
+
+
+def gen_twin(rng, base=None):
+  base = base or rng.choice(TWIN_BASES)
+  return ['eqv', rng.choice(twin_kinds(base)), base]
+
+
+def lit_class(v, cfg):
+  """Independent of gin's representability test.  True: the value is built from the builtin literal types only (type-exact,
+  at every depth; references have the literal form @name / %name): it HAS a literal form.  False: some component is a
+  non-finite float or an object whose repr is no Python literal: NO literal form.  None: undecided here (complex; an object
+  whose repr happens to be a literal)."""
+  ty = type(v)
+  if ty in (int, bool, str, bytes, type(None)):
+    return True
+  if ty is float:
+    return math.isfinite(v)
+  if ty is cfg.ConfigurableReference:
+    return True
+  if ty in (list, tuple):
+    items = list(v)
+  elif ty is dict:
+    items = list(v.keys()) + list(v.values())
+  else:
+    if ty is complex:
+      return None
+    try:
+      ast.literal_eval(repr(v))
+    except Exception:  # pylint: disable=broad-except
+      return False
+    return None
+  cs = [lit_class(x, cfg) for x in items]
+  if any(c is False for c in cs):
+    return False
+  return True if all(c is True for c in cs) else None
+
+
 def gen_value(rng, regs, depth=2):
+  if depth > 0 and rng.random() < 0.025:
+    return gen_twin(rng)
   r = rng.random()
   if r < 0.35 or depth == 0:
     return ginm.gen_plain(rng, 1)
@@ -77,7 +215,7 @@ def gen_value(rng, regs, depth=2):
 
 def textable(v):
   t = v[0]
-  if t in ('obj', 'badrepr', 'float'):
+  if t in ('obj', 'badrepr', 'float', 'eqv'):
     return False
   if t in ('l', 't'):
     return all(textable(x) for x in v[1])
@@ -126,6 +264,8 @@ class Builder:
       return BadRepr()
     if t == 'float':
       return float(v[1])
+    if t == 'eqv':
+      return twin(v[1], self.value(v[2]))
     if t == 'obj':
       return ginm.Opaque(v[1])
     if t in ('ref', 'macro'):
@@ -150,6 +290,8 @@ class Builder:
         gin.parse_config('%s = %s' % (op[1], ginm.val_text(op[2])))
       elif k == 'bind':
         gin.bind_parameter(op[1], self.value(op[2]))
+      elif k == 'cstr':      # the configuration is serialised while it is being built (result not used)
+        gin.config_str(self.case['maxlen'], self.case['indent'])
 
   def text(self):
     return self.gin.config_str(self.case['maxlen'], self.case['indent'])
@@ -172,6 +314,8 @@ class Builder:
       return T('T', *[self.canon(x) for x in v])
     if isinstance(v, dict):
       return T('D', *sorted(([self.canon(k), self.canon(x)] for k, x in v.items()), key=repr))
+    if type(v) not in (int, bool, float, complex, str, bytes, type(None)):
+      return T('py', type(v).__name__, repr(v))      # type-exact: an IntEnum member / Decimal / str subclass is not an int / str
     return P.canon_lit(v)
 
 
@@ -195,6 +339,15 @@ class SerialEngine(Engine):
                         ['import', 'from pkg import sub'], ['pbind', 's1/s2/f.a', ['l', [['i', i] for i in range(40)]]],
                         ['pbind', 'mm', ['s', 'v']], ['pbind', 'g.b', ['macro', 'mm']], ['bind', 'g.c', ['badrepr']],
                         ['pbind', 'n.g.a', ['ref', ['s1'], 'f', True]]], maxlen=30, indent=8),
+        # values without a literal form that are == / hash-equal to a bound literal of another type (C06-m9), both orders
+        dict(base, ops=[['bind', 'f.a', ['i', 1]], ['bind', 'f.b', ['eqv', 'intenum', ['i', 1]]], ['bind', 'g.a', ['eqv', 'decimal', ['i', 2]]],
+                        ['bind', 'g.b', ['i', 2]], ['bind', 'g.c', ['b', True]]]),
+        dict(base, ops=[['bind', 'f.a', ['eqv', 'strenum', ['s', 'x']]], ['bind', 'f.c', ['eqv', 'fraction', ['float', '1.5']]], ['cstr'],
+                        ['pbind', 'f.b', ['s', 'x']], ['bind', 'g.a', ['float', '1.5']], ['cstr'], ['bind', 'Foo.a', ['b', True]]]),
+        dict(base, ops=[['pbind', 'f.a', ['t', [['i', 1], ['s', 'y']]]], ['cstr'],
+                        ['bind', 'g.a', ['t', [['eqv', 'intenum', ['b', True]], ['eqv', 'strsub', ['s', 'y']]]]],
+                        ['bind', 'g.b', ['t', [['b', True], ['s', 'y']]]], ['bind', 'foo.a', ['eqv', 'eqbad', ['i', 7]]], ['bind', 'foo.b', ['i', 7]],
+                        ['bind', 'Foo.c', ['eqv', 'floatsub', ['float', '2.0']]], ['bind', 'Foo.b', ['i', 2]]], maxlen=40),
     ]
 
   def gen(self, rng, tier):
@@ -218,14 +371,39 @@ class SerialEngine(Engine):
         a, _, b = m.rpartition('.')
         ops.append(['import', 'from %s import %s' % (a, b) + (' as ' + rng.choice(['al', 'alpha']) if rng.random() < 0.3 else '')])
     seen = set()
-    for _ in range(rng.randint(1, 8)):
+
+    def gen_key():
       sel = rng.choice(sels + class_sels(classes) * 2)
       sp = rng.choice([x for x in ginm.spellings(sel, regs) if sel not in meths or '.' in x])   # methods need Class.method
       sc = '/'.join(ginm.gen_scope(rng, 2))
       p = rng.choice(['a', 'b', 'c', 'zeta', 'Alpha'])
-      v = gen_value(rng, regs)
-      key = (sc + '/' if sc else '') + sp + '.' + p
-      ops.append(['pbind' if (textable(v) and rng.random() < 0.5) else 'bind', key, v])
+      return (sc + '/' if sc else '') + sp + '.' + p
+
+    def bind_op(key, v):
+      return ['pbind' if (textable(v) and rng.random() < 0.5) else 'bind', key, v]
+    for _ in range(rng.randint(1, 8)):
+      ops.append(bind_op(gen_key(), gen_value(rng, regs)))
+    if rng.random() < 0.3:
+      # a family of values that are == and hash-equal but differ in type: literals (int / bool / float / str) and twins
+      # without a literal form, bound to different parameters in any order, the configuration being serialised in between
+      tbase = rng.choice(TWIN_BASES)
+      vals = [rng.choice(equal_literals(tbase)) for _ in range(rng.choice([1, 1, 2]))] + [gen_twin(rng, tbase) for _ in range(rng.choice([1, 1, 2]))]
+      if rng.random() < 0.3:
+        tail = [gen_value(rng, regs, 0) for _ in range(rng.randint(0, 2))]
+        vals = [['t', [v] + tail] for v in vals]
+      rng.shuffle(vals)
+      group = []
+      # mostly inside one section (a section that keeps a literal is not the '# None.' section of F18)
+      sec = gen_key().rsplit('.', 1)[0] if rng.random() < 0.6 else None
+      names = rng.sample(['a', 'b', 'c', 'zeta', 'Alpha'], len(vals))
+      for v, pn in zip(vals, names):
+        group.append(bind_op(sec + '.' + pn if sec else gen_key(), v))
+        if rng.random() < 0.35:
+          group.append(['cstr'])
+      at = rng.choice([0, len(ops), rng.randint(0, len(ops))])
+      ops[at:at] = group
+    elif rng.random() < 0.15:
+      ops.insert(rng.randint(0, len(ops)), ['cstr'])
     for m in ('mm', 'nn'):
       if rng.random() < 0.6:
         v = gen_value(rng, regs, 1)
@@ -246,16 +424,19 @@ class SerialEngine(Engine):
       gin = b.gin
       cfg = gin.config
       width = case['maxlen'] - case['indent']
+      text = b.text()            # before the harness itself asks gin anything about the values
+      md = gin.config.markdown(text)
       entries = []
       for (s, q), d in cfg._CONFIG.items():  # pylint: disable=protected-access
         params = []
         for p, v in d.items():
-          params.append([p, bool(cfg._is_literally_representable(v)), pprint.pformat(v, width=width).split('\n')])  # pylint: disable=protected-access
+          ok = lit_class(v, cfg)
+          if ok is None:
+            ok = cfg._is_literally_representable(v)  # pylint: disable=protected-access
+          params.append([p, bool(ok), pprint.pformat(v, width=width).split('\n')])
         entries.append([s, q, params, bool(cfg._REGISTRY[q].is_method)])  # pylint: disable=protected-access
       imports = sorted([[st.module, bool(st.is_from), st.alias] for st in cfg._IMPORTS], key=repr)  # pylint: disable=protected-access
       registry = [k for k, _ in cfg._REGISTRY.items()]  # pylint: disable=protected-access
-      text = b.text()
-      md = gin.config.markdown(text)
       return registry, imports, entries, text, md, b.store(), b
     except Exception:
       b.close()
@@ -285,6 +466,9 @@ class SerialEngine(Engine):
       cfgA = b.gin.config
       rep = {k: v for k, v in store.items() if cfgA._is_literally_representable(v)}  # pylint: disable=protected-access
       canonA = {k: b.canon(v) for k, v in rep.items()}
+      canonAll = {k: b.canon(v) for k, v in store.items()}
+      lit = {k: lit_class(v, cfgA) for k, v in store.items()}
+      shown = {k: repr(v)[:80] for k, v in store.items()}
       omitted = len(store) - len(rep)
       wraps = '\\\n' in text
     finally:
@@ -300,6 +484,21 @@ class SerialEngine(Engine):
         fails.append(('config-str-does-not-parse', '%s: %s; text %r' % (type(e).__name__, str(e)[:200], text)))
       if ok:
         canonB = {k: c.canon(v) for k, v in c.store().items()}
+        # from the property text, without gin's own verdict: every bound value built from builtin literal types only comes
+        # back, equal and of the same type at every depth; a value whose repr is no literal is omitted; nothing else appears
+        for k in sorted(store, key=repr):
+          if lit[k] is True and canonB.get(k) != canonAll[k]:
+            fails.append(('representable-binding-not-restored', 'binding %r = %s (literal types only) comes back as %r from the text %r' % (
+                k, shown[k], C.jsonable(canonB.get(k)), text)))
+            break
+          if lit[k] is False and k in canonB:
+            fails.append(('non-literal-value-emitted', 'binding %r = %s has no literal form, yet the text %r restores %r' % (
+                k, shown[k], text, C.jsonable(canonB[k]))))
+            break
+        extra = [k for k in sorted(canonB, key=repr) if canonB[k] != canonAll.get(k)]
+        if extra:
+          fails.append(('restored-binding-differs', 'the text restores %r = %r, the configuration held %s (%r); text %r' % (
+              extra[0], C.jsonable(canonB[extra[0]]), shown.get(extra[0], 'nothing'), C.jsonable(canonAll.get(extra[0])), text)))
         if canonB != canonA:
           diff = {k: (canonA.get(k), canonB.get(k)) for k in set(canonA) | set(canonB) if canonA.get(k) != canonB.get(k)}
           fails.append(('round-trip-lost-or-changed', 'differences (store, re-parsed): %r; text %r' % (C.jsonable(diff), text)))
@@ -312,7 +511,7 @@ class SerialEngine(Engine):
     # (3) order independence: replay the binding ops in another order (last-wins groups kept in order)
     import random
     rng = random.Random(C.case_hash(case))
-    binds = [op for op in case['ops'] if op[0] != 'import']
+    binds = [op for op in case['ops'] if op[0] in ('bind', 'pbind')]
     keyed = {}
     for op in binds:
       keyed.setdefault(op[1], []).append(op)
@@ -369,8 +568,9 @@ class SerialEngine(Engine):
     if [l for l in want_md if l.strip()] != [l for l in got_md if l.strip()]:
       fails.append(('markdown-not-verbatim', '%r vs %r' % (want_md, got_md)))
     scoped_q = any('/' in l and l.count('.') >= 2 for l in text.split('\n') if l.startswith('# Parameters for '))
-    return {'obs': obs, 'fails': fails[:3], 'nontrivial': wraps or (scoped_q and omitted >= 1),
-            'tags': ['L%d' % case['maxlen'], 'omitted' if omitted else 'all-representable']}
+    return {'obs': obs, 'fails': fails[:4], 'nontrivial': wraps or (scoped_q and omitted >= 1),
+            'tags': ['L%d' % case['maxlen'], 'omitted' if omitted else 'all-representable'] +
+                    (['equal-twin'] if "'eqv'" in repr(case['ops']) else []) + (['serialised-midway'] if ['cstr'] in case['ops'] else [])}
 
 
 # ---------------------------------------------------------------- the VALUE side: repr / pprint texts read back
